@@ -84,8 +84,37 @@ def verify_function(reg: Registry, qualname: str, tier="quick", ghosts=None) -> 
     return rep
 
 
+def _verify_bounded(E, reg, qualname, rep):
+    """contract marked bounded=True: native evaluation only (a labelled bounded stand-in, never counted as proved)"""
+    import os
+    from .search import bounded_check
+    c = reg.contracts[qualname]
+    obj, owner, mod = locate.resolve(qualname)
+    fn, kind, dropped = locate.unwrap(obj)
+    fdef, path = locate.find_def(fn)
+    rep.file, rep.ast_hash, rep.lines = path, locate.ast_hash(fdef), fdef.end_lineno - fdef.lineno + 1
+    tries = 6000 if E.tier == "thorough" else 1500
+    stats, found = bounded_check(E, reg, qualname, c, tries=tries, seed=int(os.environ.get("VERIF_SEED", "0") or 0))
+    for oid, st_ in stats.items():
+        w = found.get(oid)
+        rep.obligations.append({
+            "id": "bounded:" + oid, "func": qualname, "kind": "bounded", "label": None,
+            "status": "refuted" if w else ("discharged" if st_["evaluations"] > 0 else "undecided"),
+            "backend": "native evaluation of the contract clause on generated inputs (BOUNDED)", "secs": 0.0,
+            "reason": "" if not w else "the real function violates the clause on a generated input",
+            "model": None, "path_notes": [], "goal_size": 0,
+            "replay": {"reproduced": True, "detail": w["observed"], "inputs": w["inputs"]} if w else None,
+            "clause": next(e for i, (lab, e) in enumerate(c.ensures) if oid.startswith(f"{qualname}/post#{i}")),
+            "bound": f"{tries} generated inputs (lists <= 3 elements, strings/paths/ints from small pools), seed {os.environ.get('VERIF_SEED', '0')}",
+            "evaluations": st_["evaluations"], "nontrivial": st_["true_nontrivial"]})
+
+
 def _verify(E, reg, qualname, rep, ghosts):
     c = reg.contracts[qualname]
+    if c.bounded:
+        E.cur = qualname
+        _verify_bounded(E, reg, qualname, rep)
+        return
     obj, owner, mod = locate.resolve(qualname)
     fn, kind, dropped = locate.unwrap(obj)
     fdef, path = locate.find_def(fn)
@@ -156,6 +185,9 @@ def _verify(E, reg, qualname, rep, ghosts):
             res = s.status[1] if s.status else SVal(None, NONE)
             if rty is not None and rty is not NONE:
                 try:
+                    if isinstance(res, IterView):
+                        from .builtins_ import seq_of
+                        res = seq_of(E, res, s)
                     res = E.coerce(res, rty, s)
                 except OutsideSubset as e:
                     raise OutsideSubset(f"return value {res!r} does not fit declared type {rty}: {e}")
@@ -231,7 +263,7 @@ def _verify(E, reg, qualname, rep, ghosts):
         E.obls.append(o)
     # vacuity: at least one normal exit must not be provably infeasible (a contradictory assumption proves everything)
     if c.noreturn:
-        ok = any(s.status is not None and s.status[0] == "raise" and solve.check_sat(E.axioms_now() + s.pc, 2000) != "unsat" for s in outs)
+        ok = any(s.status is not None and s.status[0] == "raise" and E.satisfiable(s.pc) != "unsat" for s in outs)
         if not ok:
             o = Obligation(f"{qualname}/vacuity[some-exceptional-exit-is-consistent]", qualname, "vacuity", [], z3.BoolVal(False))
             o.status, o.reason = "refuted", "no consistent exceptional exit of a noreturn function"
@@ -240,7 +272,7 @@ def _verify(E, reg, qualname, rep, ghosts):
         feasible_exit = False
         for s in outs:
             if s.status is None or s.status[0] == "return":
-                if solve.check_sat(E.axioms_now() + s.pc, 2000) != "unsat":
+                if E.satisfiable(s.pc) != "unsat":
                     feasible_exit = True
                     break
         if not feasible_exit:
